@@ -1693,3 +1693,94 @@ def context_forms(ctx, stmts, res):
     if ctx == "edge2":
         return [S("RES", S(S("fn", B(), *fard[:NEDGE + 2], *hdr, *st, S("def", "r_", res), "r_")))]
     raise ValueError(ctx)
+
+
+# ---------------------------------------------------------------------- operand-width boundaries (session 4c)
+# Deterministic family: one small program per place where the compiler chooses between an 8-bit / 16-bit / constant
+# form by an index, a count or a value, at the values b-1, b, b+1 of every bound b (regenerated bounds:
+# tools/gen/compile.py -> Gen/Compile.lean, obligations `operand_bounds_fit_fields*` in Props/C02).
+#   destructure()        positional pattern index  i < 0x100   -> GET_INDEX with an 8-bit index, else IN with a constant key
+#   janetc_fn            parameter k <-> stack slot k, also past the reserved temporaries 0xF0..0xFF and past 0xFF
+#   can_be_imm (cfuns.c) INT8_MIN..INT8_MAX  -> *_IMMEDIATE forms of + - * and of the comparisons
+#   janetc_loadconst     INT16_MIN..INT16_MAX -> LOAD_INTEGER, else LOAD_CONSTANT
+#   janetc_pushslots     tuple / array / struct / table constructors and calls with 255 / 256 / 257 operands
+#   get / in / put       with index 254..257
+# Every program is embedded in all contexts (so also behind 262 live locals, where every slot is far) and judged by the
+# independent reference interpreter like the random programs.
+BOUNDARY_LENGTHS = [255, 256, 257, 258, 300]
+BOUNDARY_EDGE = [255, 256, 257]
+
+
+def _fill(name, n, base=1000):
+    """(def <name> @[]) (for i_ 0 n (array/push <name> (+ base i_)))"""
+    return [S("def", name, Lit("arr", [])), S("for", "i_", 0, n, S("array/push", name, S("+", base, "i_")))]
+
+
+def _around(n, prefix="s"):
+    idx = sorted({i for i in (0, 1, 238, 239, 240, 241, 253, 254, 255, 256, 257, 258, n - 2, n - 1) if 0 <= i < n})
+    return [Sym("%s%d" % (prefix, i)) for i in idx]
+
+
+def boundary_programs():
+    """-> list of (name, stmts, res)"""
+    out = []
+    for n in BOUNDARY_LENGTHS:
+        pat = B(*["s%d" % i for i in range(n)])
+        out.append(("destructure-def-%d" % n, _fill("xs", n) + [S("def", pat, "xs")], B(*_around(n))))
+        pat = B(*["s%d" % i for i in range(n)])
+        out.append(("destructure-var-%d" % n, _fill("xs", n) + [S("var", pat, "xs"), S("set", "s0", S("+", "s0", "s%d" % (n - 1)))],
+                    B(S("+", *["s%d" % i for i in range(n)]), *_around(n))))
+        pat = B(*["s%d" % i for i in range(n)])
+        out.append(("destructure-fnparam-%d" % n, _fill("xs", n), S(S("fn", B(pat), B(*_around(n))), "xs")))
+        out.append(("destructure-tuple-rhs-%d" % n, [S("def", B(*["s%d" % i for i in range(n)]), B(*[2000 + i for i in range(n)]))], B(*_around(n))))
+    for k in BOUNDARY_EDGE:
+        # `& rest` after k positional elements
+        pat = B(*(["s%d" % i for i in range(k)] + ["&", "r"]))
+        out.append(("destructure-rest-after-%d" % k, _fill("xs", k + 3) + [S("def", pat, "xs")], B("s0", "s%d" % (k - 2), "s%d" % (k - 1), "r")))
+        pat = B(*(["s%d" % i for i in range(k)] + ["&", "r"]))
+        out.append(("destructure-fnparam-rest-after-%d" % k, _fill("xs", k + 3), S(S("fn", B(pat), B("s0", "s%d" % (k - 1), "r")), "xs")))
+        # nested pattern at index k (the element before it and after it are plain symbols)
+        pat = B(*(["s%d" % i for i in range(k)] + [B("p", "q"), "z"]))
+        out.append(("destructure-nested-at-%d" % k, _fill("xs", k) + [S("array/push", "xs", B(":x", k)), S("array/push", "xs", ":z"), S("def", pat, "xs")],
+                    B("s0", "s%d" % (k - 1), "p", "q", "z")))
+        pat = B(*(["s%d" % i for i in range(k)] + [Lit("stc", [Kw("k"), Sym("p")]), "z"]))
+        out.append(("destructure-nested-struct-at-%d" % k, _fill("xs", k) + [S("array/push", "xs", Lit("stc", [Kw("k"), k])), S("array/push", "xs", ":z"), S("var", pat, "xs")],
+                    B("s%d" % (k - 1), "p", "z")))
+    # parameters: parameter k is stack slot k, also past the reserved temporaries 0xF0-0xFF and past 8 bits
+    for n in (239, 240, 241, 255, 256, 257, 300):
+        ps = ["p%d" % i for i in range(n)]
+        out.append(("fn-params-%d" % n, [S("def", "f_", S("fn", B(*ps), B(*_around(n, "p"))))], S("f_", *[3000 + i for i in range(n)])))
+    for n in (239, 241, 256):
+        ps = ["p%d" % i for i in range(n)] + ["&", "r"]
+        out.append(("fn-params-rest-%d" % n, [S("def", "f_", S("fn", B(*ps), B("p0", "p%d" % (n - 1), "r")))], S("f_", *[3000 + i for i in range(n + 2)])))
+        ps = ["p%d" % i for i in range(n)] + ["&opt", "o1", "o2"]
+        out.append(("fn-params-opt-%d" % n, [S("def", "f_", S("fn", B(*ps), B("p0", "p%d" % (n - 1), "o1", "o2")))], S("f_", *[3000 + i for i in range(n + 1)])))
+    # 8-bit signed immediates of the arithmetic / comparison forms (m = 10)
+    vals = [126, 127, 128, 129, -127, -128, -129, -130, 255, 256, 266, -246, -256]
+    obs = []
+    for v in vals:
+        obs += [S("+", "m", v), S("-", "m", v), S("*", "m", v), S("+", v, "m"), S("<", "m", v), S(">", "m", v), S("=", "m", v), S("not=", "m", v),
+                S("<=", "m", v), S(">=", "m", v), S("+", "a", "m", v), S("<", "a", "m", v)]
+    out.append(("imm8-arith-compare", [], B(*obs)))
+    # 16-bit LOAD_INTEGER vs LOAD_CONSTANT
+    ks = [32766, 32767, 32768, 32769, -32767, -32768, -32769, -32770, 65535, 65536, 65537, -65535, -65536, 98304]
+    out.append(("imm16-loadconst", [S("def", "k%d" % i, v) for i, v in enumerate(ks)] + [S("var", "acc", 0)] + [S("set", "acc", S("+", "acc", v)) for v in ks],
+                B("acc", *(["k%d" % i for i in range(len(ks))] + list(ks) + [S("+", "m", 32767), S("+", "m", 32768), S("<", "m", -32769)]))))
+    # constructors / calls with 255, 256, 257 operands (janetc_pushslots: PUSH_3 groups + remainder)
+    for n in BOUNDARY_EDGE:
+        els = [(Sym("m") if i % 50 == 7 else Sym("a") if i % 50 == 9 else 4000 + i) for i in range(n)]
+        peek = [0, 1, 7, 9, 253, 254, n - 2, n - 1]
+        out.append(("tuple-literal-%d" % n, [S("def", "t_", B(*els))], B(S("length", "t_"), *[S("in", "t_", i) for i in peek])))
+        out.append(("array-literal-%d" % n, [S("def", "t_", Lit("arr", els))], B(S("length", "t_"), *[S("get", "t_", i) for i in peek])))
+        kv = []
+        for i in range(n):
+            kv += [i, els[i]]
+        out.append(("struct-literal-%d" % n, [S("def", "t_", Lit("stc", kv))], B(S("length", "t_"), *[S("get", "t_", i) for i in peek + [n]])))
+        out.append(("table-literal-%d" % n, [S("def", "t_", Lit("tab", kv))], B(S("length", "t_"), *[S("in", "t_", i) for i in peek])))
+        out.append(("call-args-%d" % n, [S("defn", "f_", B("&", "r"), B(S("length", "r"), S("in", "r", 0), S("in", "r", n - 2), S("in", "r", n - 1)))], S("f_", *els)))
+        out.append(("add-operands-%d" % n, [], S("+", *els)))
+    # get / in / put with an index around 8 bits
+    out.append(("index-forms", _fill("xs", 300),
+                B(*([S("get", "xs", i) for i in (254, 255, 256, 257)] + [S("in", "xs", i) for i in (254, 255, 256, 257)] + [S("xs", i) for i in (255, 256)]
+                    + [S("do", S("put", "xs", 255, ":p"), S("put", "xs", 256, ":q"), B(S("xs", 0), S("xs", 255), S("xs", 256)))]))))
+    return out
